@@ -230,6 +230,9 @@ def run(ctx):
                         "(hypotheses of c15_aggregate_range; verify_country_data enforces population > 10000)",
                         "scenario_option values that name a table column are numeric (apply_custom_parameters calls float())"]
     ok = ctx.regen(["gen_country_table"])
+    if ok:
+        import gen_country_table
+        ok = gen_country_table.ensure_built(ctx)
     ctx.check_props()
     table = load_table(lib.REPO)
     ctx.log("props checked")
@@ -346,7 +349,7 @@ def audit_real(ctx, cases, results, table):
             ctx.violation("C15:value@run_model_no_trade", f"real run: totals {r['net_pop']}, {r['net_fed']} != {float(np_)}, {float(nf_)}", rep)
         for x in good:
             pf = r["percent_people_fed"].get(names[x[0]])
-            if pf == "nan" or abs(pf / 100 - x[3]) > 1e-12 * max(1, abs(x[3])):
+            if pf is None or pf == "nan" or abs(pf / 100 - x[3]) > 1e-12 * max(1, abs(x[3])):
                 ok = False
                 ctx.violation("C15:value@run_optimizer_for_country", f"real run: {x[0]} ratio {x[3]} but percent_people_fed {pf}", rep)
         if r["net_pop"] > 0 and not 0 <= r["net_fed"] / r["net_pop"] <= 1:
